@@ -115,6 +115,9 @@ func genCfg(r *Rng) *handCfg {
 }
 
 // chooseAction picks the next action of the player to act from what is offered.
+// stalling: play style of the current hand (see chooseAction)
+var stalling bool
+
 func chooseAction(r *Rng, gs *pokerface.GameState, aggressive bool) opSpec {
 	st := &gs.Status
 	p := gs.Players[st.CurrentPlayer]
@@ -127,6 +130,20 @@ func chooseAction(r *Rng, gs *pokerface.GameState, aggressive bool) opSpec {
 		seat = st.CurrentPlayer
 	}
 	w := map[string]int{"pass": 20, "fold": 3, "check": 14, "call": 16, "allin": 1, "bet": 6, "raise": 5}
+	if stalling {
+		// stalling play: whatever moves no chips, over and over (hunts for plays that never close)
+		for _, x := range a {
+			if x == "bet" && r.Chance(0.7) {
+				return opSpec{kind: "act", seat: seat, act: "bet", x: 0}
+			}
+		}
+		w = map[string]int{"pass": 20, "fold": 0, "check": 30, "call": 10, "allin": 0, "bet": 0, "raise": 3}
+		for _, x := range a {
+			if x == "raise" && r.Chance(0.3) {
+				return opSpec{kind: "act", seat: seat, act: "raise", x: st.CurrentWager}
+			}
+		}
+	}
 	if aggressive {
 		w["allin"] = 12
 		w["raise"] = 10
@@ -259,6 +276,11 @@ func playHand(o *Out, r *Rng, cfgLine string, probeP, viewP, hopP, malP float64)
 	steps := 0
 	after := 0
 	aggressive := r.Chance(0.2)
+	stalling = !aggressive && r.Chance(0.12)
+	if stalling {
+		o.Count("engine.stalling_hands")
+	}
+	defer func() { stalling = false }()
 	for !h.dead && steps < 500 {
 		gs := h.g.GetState()
 		if h.closed {
